@@ -108,7 +108,7 @@ func (World) Generate(r *engine.RNG, tier string) *engine.Script {
 	for i := 0; i < ne; i++ {
 		op := engine.Op{Op: "entry"}
 		sh := &engine.Shape{Seed: r.Uint64() | 1}
-		switch k := r.Intn(16); k {
+		switch k := r.Intn(18); k {
 		case 0:
 			op.Struct = "lease_parse"
 			sh.Kind = "lease"
